@@ -88,16 +88,23 @@ impl BDecoder {
         first_num: &u8,
     ) -> Result<(Vec<u8>, Vec<u8>), Error> {
         let mut len_bytes = vec![*first_num];
+        let mut it_start = it.clone();
         let mut rest_len_bytes: Vec<_> = it
             .take_while(|(_, &b)| b != b':')
             .map(|(_, &b)| b)
             .collect();
+        let colon = it_start.nth(rest_len_bytes.len());
         len_bytes.append(&mut rest_len_bytes);
         let mut str_raw = len_bytes.clone();
         str_raw.push(b':');
 
         if !len_bytes.iter().all(|b| (b'0'..=b'9').contains(b)) {
             return Err(Error::DecodeIncorrectChar("parse_byte_str", pos));
+        }
+
+        // Input ended before ":" delimiter
+        if let None = colon {
+            return Err(Error::DecodeNotEnoughChars("parse_byte_str", pos));
         }
 
         let len_str = match String::from_utf8(len_bytes) {
